@@ -220,23 +220,20 @@ def tp_output_forms(docs, ind, year, n, representation="vtl"):
 
 
 def _range_class(ind, year, n):
-    """equivalence class of a period number, domain vocabulary"""
-    names = {"S": "semester", "Q": "quarter", "M": "month", "W": "week", "D": "day", "A": "annual-number"}
+    """equivalence class of a period number, domain vocabulary: inside the calendar of the year, outside the
+    absolute range of the indicator (0, 13th month, 54th week, 367th day...), or only outside this year's calendar"""
     if year > 9999 or year < 0:
         return "five-digit-year"
-    mx = max_period(ind, year)
-    if n == 0:
-        return "%s-0" % names[ind]
-    if 1 <= n <= mx:
+    if 1 <= n <= max_period(ind, year):
         return "in-range"
     if ind == "W" and n == 53:
         return "week-53-of-52-week-year"
     if ind == "D" and n == 366:
         return "day-366-of-common-year"
-    return "%s-%d" % (names[ind], n)
+    return "number-0" if n == 0 else "number-above-maximum"
 
 
-def c19_time_period(docs, years):
+def c19_time_period(docs, years, light=()):
     """every documented spelling x period numbers 0..max+1 x years (+ undocumented widths as 'silent')"""
     out, seen = [], set()
 
@@ -275,7 +272,7 @@ def c19_time_period(docs, years):
                         "valid" if ok else "invalid", {"any": tp_output_forms(docs, ind, y, n)} if ok else None, fmt=f)
             elif it["kind"] in ("ind-num", "iso-month"):
                 mx = max_period(ind, y if not bad_year else 2021)
-                for n in (range(0, mx + 2) if not bad_year else (1, mx)):
+                for n in (range(0, mx + 2) if not bad_year and y not in light else ((1, mx) if bad_year else (0, 1, mx, mx + 1))):
                     for w in it["widths"]:
                         if len(str(n)) > w:
                             continue
@@ -284,17 +281,15 @@ def c19_time_period(docs, years):
                             "%s:%s" % (ind, _range_class(ind, y, n)), "valid" if ok else "invalid",
                             {"any": tp_output_forms(docs, ind, y, n)} if ok else None, fmt=f)
             elif it["kind"] == "iso-date":
-                for mth in range(0, 14):
+                for mth in (range(0, 14) if y not in light else (2, 13)):
                     for day in ((1, 15, 28, 29, 30, 31, 32) if 1 <= mth <= 12 else (15,)):
                         ok = valid_date(y, mth, day) and not bad_year
                         if bad_year:
                             cls = "D:five-digit-year"
                         elif ok:
                             cls = "D:calendar-date"
-                        elif not 1 <= mth <= 12:
-                            cls = "D:calendar-date-month-%d" % mth
                         else:
-                            cls = "D:calendar-date-day-%d-of-shorter-month" % day if day <= 31 else "D:calendar-date-day-32"
+                            cls = "D:nonexistent-calendar-date"
                         add("%s-%02d-%02d" % (ys, mth, day), cls, "valid" if ok else "invalid",
                             {"any": tp_output_forms(docs, "D", y, day_of_year(y, mth, day))} if ok else None, fmt=f)
         # widths the table does not list (e.g. 2020-W1, 2020Q01): documentation silent -> no expectation
@@ -335,7 +330,7 @@ _TIME_VARIANTS = (
 )
 
 
-def c19_date(docs, years):
+def c19_date(docs, years, full=True):
     lo, hi = docs["date_years"]
     out, seen = [], set()
 
@@ -346,20 +341,23 @@ def c19_date(docs, years):
                 continue
             seen.add(t)
             if len(str(y)) != 4:
-                out.append(cell(t, "five-digit-year:" + vname, "invalid", shape=vname))
+                out.append(cell(t, "five-digit-year", "invalid", shape=vname, fmt=vname))
             elif not (lo <= y <= hi):
-                out.append(cell(t, "year-outside-documented-range:" + vname, "invalid", shape=vname))
+                out.append(cell(t, "year-outside-documented-range", "invalid", shape=vname, fmt=vname))
             elif not 1 <= mth <= 12:
-                out.append(cell(t, "month-%d:%s" % (mth, vname), "invalid", shape=vname))
+                out.append(cell(t, "month-0" if mth == 0 else "month-above-12", "invalid", shape=vname, fmt=vname))
             elif not valid_date(y, mth, day):
-                out.append(cell(t, ("day-32" if day > 31 else "day-%d-of-shorter-month" % day) + ":" + vname, "invalid", shape=vname))
+                out.append(cell(t, "day-0" if day == 0 else ("day-32" if day > 31 else "day-beyond-end-of-month"), "invalid",
+                                shape=vname, fmt=vname))
             elif tm == "bad":
-                out.append(cell(t, vname, "invalid", shape=vname))
+                out.append(cell(t, vname, "invalid", shape=vname, fmt=vname))
             else:
-                out.append(cell(t, vname, "valid", {"dt": "%04d-%02d-%02d" % (y, mth, day) + ("T" + tm if tm else "")}, shape=vname))
+                out.append(cell(t, vname, "valid", {"dt": "%04d-%02d-%02d" % (y, mth, day) + ("T" + tm if tm else "")},
+                                shape=vname, fmt=vname))
 
     for y in years:
-        for mth in range(1, 13):
+        in_range = lo <= y <= hi
+        for mth in (range(1, 13) if in_range or full else (2,)):
             for day in (28, 29, 30, 31, 32):
                 add(y, mth, day, _TIME_VARIANTS[:8])
         add(y, 1, 15, _TIME_VARIANTS)
@@ -415,7 +413,7 @@ def c19_time(docs, years):
                 add("%s-%02d" % (ys, mth), "month-shorthand" + sfx, e,
                     {"any": ["%s-%02d-01/%s-%02d-%02d" % (ys, mth, ys, mth, last_day_of_month(y, mth))]})
             else:
-                add("%s-%02d" % (ys, mth), "month-shorthand:month-%d" % mth, "invalid")
+                add("%s-%02d" % (ys, mth), "month-shorthand:month-0-or-13", "invalid")
         add("%s-1" % ys, "month-shorthand:unpadded", "silent")
         # intervals
         iv = "%s-01-01/%s-12-31" % (ys, ys)
@@ -427,9 +425,9 @@ def c19_time(docs, years):
             if valid_date(y, 2, day):
                 add(t, "interval:end-of-february" + sfx, e, {"any": [t]})
             else:
-                add(t, "interval:end-day-%d-of-february" % day, "invalid")
-        add("%s-13-01/%s-12-31" % (ys, ys), "interval:start-month-13", "invalid")
-        add("%s-01-01/%s-12-32" % (ys, ys), "interval:end-day-32", "invalid")
+                add(t, "interval:nonexistent-calendar-date", "invalid")
+        add("%s-13-01/%s-12-31" % (ys, ys), "interval:nonexistent-calendar-date", "invalid")
+        add("%s-01-01/%s-12-32" % (ys, ys), "interval:nonexistent-calendar-date", "invalid")
         if y < 9999:
             t = "%s-07-01/%04d-06-30" % (ys, y + 1)
             add(t, "interval:across-years" + sfx, e if lo <= y + 1 <= hi else "silent", {"any": [t]})
@@ -472,6 +470,7 @@ def c18_pool(type_, docs=None):
     if type_ == "Integer":
         return [E("7", "canonical", "valid", {"eq": 7}), E("-7", "negative", "valid", {"eq": -7}), E("0", "zero", "valid", {"eq": 0}),
                 E("42", "documented-example", "valid", {"eq": 42}),
+                E("9007199254740993", "above-2^53", "valid", {"eq": 9007199254740993}),
                 E("9223372036854775807", "int64-max", "valid", {"eq": 9223372036854775807}),
                 E("007", "leading-zeros"), E(" 7", "leading-space"), E("7 ", "trailing-space"),
                 E("7.0", "zero-fraction"), E("3.5", "fractional", "invalid"), E("1e3", "exponent"),
@@ -515,12 +514,16 @@ def c18_pool(type_, docs=None):
                 E("2020-01-15T10:30:00Z", "timezone-Z", "valid", {"dt": "2020-01-15T10:30:00"}, shape="datetime"),
                 E("2020-01-15T10:30:00+02:00", "timezone-offset", "valid", {"dt": "2020-01-15T10:30:00"}, shape="datetime"),
                 E("2020-01-15T10:30:00.123456789", "nanoseconds", "valid", {"dt": "2020-01-15T10:30:00.123456"}, shape="datetime"),
-                E("2020-1-5", "unpadded-month-and-day"), E("1799-12-31", "year-outside-documented-range:date", "invalid"),
-                E("10000-01-01", "five-digit-year:date", "invalid"), E("2020-02-30", "day-30-of-shorter-month:date", "invalid"),
-                E("2020-13-01", "month-13:date", "invalid"), E("2020-01-15T25:00:00", "hour-25", "invalid"),
+                E("2020-1-5", "unpadded-month-and-day"), E("1799-12-31", "year-outside-documented-range", "invalid"),
+                E("10000-01-01", "five-digit-year", "invalid"), E("2020-02-30", "day-beyond-end-of-month", "invalid"),
+                E("2020-13-01", "month-above-12", "invalid"), E("2020-01-15T25:00:00", "hour-25", "invalid"),
                 E("15/01/2020", "day-first-slashes", "invalid"), E("", "empty-string"), E(None, "null")]
     if type_ == "Time_Period":
         def v(t, cls, *forms):
+            if docs:                         # expected rendering from the output-format table of the documentation
+                ind = cls[0]
+                n = {"2020-01-15": 15}.get(t) or (1 if ind != "A" else 1)
+                forms = tp_output_forms(docs, ind, 2020, n) or forms
             return E(t, cls, "valid", {"any": list(forms)})
         return [v("2020", "A:in-range", "2020"), v("2020A", "A:in-range", "2020"), v("2020-A1", "A:in-range", "2020"),
                 v("2020S1", "S:in-range", "2020S1"), v("2020-Q1", "Q:in-range", "2020Q1"), v("2020M1", "M:in-range", "2020M1"),
@@ -529,9 +532,9 @@ def c18_pool(type_, docs=None):
                 v("2020-W01", "W:in-range", "2020W1", "2020W01"), v("2020D001", "D:in-range", "2020D1", "2020D01", "2020D001"),
                 v("2020-D001", "D:in-range", "2020D1", "2020D01", "2020D001"),
                 v("2020-01-15", "D:calendar-date", "2020D15", "2020D015"),
-                E("2020M13", "M:month-13", "invalid"), E("2020-M13", "M:month-13", "invalid"),
+                E("2020M13", "M:number-above-maximum", "invalid"), E("2020-M13", "M:number-above-maximum", "invalid"),
                 E("2021W53", "W:week-53-of-52-week-year", "invalid"), E("2021D366", "D:day-366-of-common-year", "invalid"),
-                E("2020Q5", "Q:quarter-5", "invalid"), E("2020X1", "unknown-indicator", "invalid"),
+                E("2020Q5", "Q:number-above-maximum", "invalid"), E("2020X1", "unknown-indicator", "invalid"),
                 E("2020m1", "lower-case-indicator"), E(" 2020M1", "leading-space"), E("", "empty-string"), E(None, "null")]
     if type_ == "Time":
         return [E("2020-01-01/2020-12-31", "interval", "valid", {"any": ["2020-01-01/2020-12-31"]}),
@@ -539,7 +542,7 @@ def c18_pool(type_, docs=None):
                 E("2020-02", "month-shorthand", "valid", {"any": ["2020-02-01/2020-02-29"]}),
                 E("2020-03-15/2020-03-15", "interval:single-day", "valid", {"any": ["2020-03-15/2020-03-15"]}),
                 E("2020-12-31/2020-01-01", "interval:reversed", "invalid"),
-                E("2020-01-01/2020-02-30", "interval:end-day-30-of-february", "invalid"),
+                E("2020-01-01/2020-02-30", "interval:nonexistent-calendar-date", "invalid"),
                 E("2020-01-01T00:00:00/2020-12-31T23:59:59", "interval:datetime-bounds"),
                 E("2020-01-01/2020-12-31T00:00:00", "interval:unequal-bound-formats"),
                 E("2020-01-01", "single-date"), E("2020-1", "month-shorthand:unpadded"), E("2020Q1", "time-period-literal"),
@@ -579,6 +582,8 @@ def value_ok(val, got):
             return isinstance(exp, bool) and isinstance(got, bool) and exp == got
         if isinstance(exp, str) or isinstance(got, str):
             return exp == got
+        if isinstance(exp, int) and isinstance(got, int):
+            return exp == got               # integers exactly (a relative tolerance would hide 2^53 + 1 -> 2^53)
         return harness.num_eq(exp, got)
     if "any" in val:
         return got in val["any"]
@@ -695,7 +700,8 @@ def _inj_null_id_period(s):
 def _inj_missing_id(s):
     _dropcol(s, "Id_2")
     for n, r in enumerate(s["rows"], 1):        # keep the remaining key unique: the only violation is the missing column
-        r[0] = str(n)
+        if r[0] is not None:
+            r[0] = str(n)
 
 
 def _inj_missing_nonnullable(s):
@@ -772,6 +778,8 @@ def structural_cases():
             continue
         if {a, b} <= {"duplicate-key-adjacent-rows", "duplicate-key-after-normalisation"}:
             continue                              # both rewrite the same row
+        if second in _DROPPERS and INJECTORS[second][2][0] in INJECTORS[first][2]:
+            continue                              # dropping the column would remove the other violation again
         s = _base()
         ok = True
         for n in (first, second):
@@ -782,8 +790,6 @@ def structural_cases():
         if not ok:
             continue
         exp = _combine([INJECTORS[a][1], INJECTORS[b][1]])
-        if "missing-identifier-column" in (a, b) and ("duplicate" in a or "duplicate" in b):
-            exp = "invalid"
         out.append({"name": "%s+%s" % (a, b), "viol": (a, b), "exp": exp, "spec": s})
     out.append({"name": "no-identifiers-one-datapoint", "viol": (), "exp": "valid", "spec": _dwi(1)})
     out.append({"name": "no-identifiers-two-datapoints", "viol": ("no-identifiers-two-datapoints",), "exp": "invalid", "spec": _dwi(2)})
@@ -931,12 +937,27 @@ FAMILY = {"csv": "csv", "df": "dataframe", "df-object": "df-text", "df-str": "df
           "df-native": "df-native", "pq-str": "parquet-text", "pq-native": "parquet-native"}
 
 
+FORMS_EXTRA = ("csv@bom", "csv@rev", "df-object@rev", "pq-str@rev")     # thorough tier of C18: BOM header, column order
+FAMILY.update({"csv@bom": "csv-with-bom", "csv@rev": "csv-reversed-columns", "df-object@rev": "df-reversed-columns",
+               "pq-str@rev": "parquet-reversed-columns"})
+
+
+def _reversed_columns(spec):
+    s = dict(spec)
+    s["cols"] = list(reversed(spec["cols"]))
+    s["rows"] = [list(reversed(r)) for r in spec["rows"]]
+    return s
+
+
 def materialise(spec, form):
     """-> datapoint (path or DataFrame) for run()/validate_dataset, or None if the form cannot hold the content"""
+    form, _, variant = form.partition("@")
+    if variant == "rev":
+        spec = _reversed_columns(spec)
     if form == "csv":
         p = _path("csv")
         with open(p, "w", encoding="utf-8", newline="") as f:
-            f.write(csv_text(spec))
+            f.write(("\ufeff" if variant == "bom" else "") + csv_text(spec))
         return p
     if form in ("df", "df-object", "df-str", "df-string", "df-native"):
         return _frame(spec, {"df": "infer", "df-object": "object", "df-str": "str", "df-string": "string", "df-native": "native"}[form])
@@ -1066,13 +1087,14 @@ def single_cell(V, type_, role, c, form, fn=run_table):
 def cell_space(docs, type_, tier):
     """the C19/C20 single-cell space of a type: C18 pool + documented-spelling generator"""
     years = YEARS if tier == "thorough" else (1799, 2020, 2021, 10000)
+    light = () if tier == "thorough" else (1799, 10000)
     cells = list(c18_pool(type_, docs))
     seen = {c["t"] for c in cells}
     extra = []
     if type_ == "Time_Period":
-        extra = c19_time_period(docs, years)
+        extra = c19_time_period(docs, years, light)
     elif type_ == "Date":
-        extra = c19_date(docs, years)
+        extra = c19_date(docs, years, full=tier == "thorough")
     elif type_ == "Time":
         extra = c19_time(docs, years)
     elif type_ == "Duration":
@@ -1100,6 +1122,13 @@ def cell_class(c, role):
     return c["cls"]
 
 
+def key_prefix(check, type_, c, role):
+    """'<check>:<type>:<class>' ; a null is the same input whatever the type of the component"""
+    if c["t"] is None:
+        return "%s:%s" % (check, cell_class(c, role))
+    return "%s:%s:%s" % (check, type_, cell_class(c, role))
+
+
 def cell_items(docs, tier, pack=300, singles=6):
     """-> list of ('pack'|'singles', type, role, [cells]); packs hold cells expected to be accepted (one run
     per form settles them), the other cells are executed one table each.  Roles: the C18 pool in all three
@@ -1112,6 +1141,8 @@ def cell_items(docs, tier, pack=300, singles=6):
             cells = space if (role == "nm" or (role == "id" and tier == "thorough")) else pool
             groups, rest = {}, []
             for c in cells:
+                if c["t"] == "" and role == "nn":
+                    continue                  # '' in a non-nullable measure adds nothing to '' as nullable measure + null in a non-nullable one
                 exp, _ = expectation(c, role)
                 if exp == "valid" and c["t"] is not None:
                     g = "date" if c.get("shape") == "date" else "x"
